@@ -547,13 +547,13 @@ fn exec_part(o: &Opts, out: &mut Out, run: &mut u64) {
 fn ldcpad_part(o: &Opts, out: &mut Out, run: &mut u64) {
     let thorough = o.thorough();
     let mut rng = o.rng(3636);
-    let sessions = if thorough { 6 } else { 3 };
+    let sessions = if thorough { 10 } else { 4 };
     for k in 0..sessions {
         let fx = fixture(&mut rng, GasCosts::default(), 102_400, &[72, 40, 75, 9, 40], &[64, 40, 11]);
         *run += 1;
         let mut s = match exec_session(out, *run, &fx, 50_000_000) { Some(s) => s, None => continue };
         let pc0 = s.vm.registers()[RPC];
-        for i in 0..(if thorough { 6 } else { 3 }) {
+        for i in 0..(if thorough { 20 } else { 8 }) {
             let (mut sets, word) = pick_instr(&mut rng, &fx, &s, MEM, Some(if (k + i) % 2 == 0 { "LDC0" } else { "LDC1" }), true);
             sets.extend([(RCGAS, 10_000_000), (RGGAS, 10_000_000), (RPC, pc0)]);
             exec_one_acc(out, *run, i as u64, &mut s.vm, &sets, word);
